@@ -48,6 +48,10 @@ class staterror_builder:
             if defined_samp
             else [0.0] * self.config.channel_nbins[channel]
         )
+        if thismod and len(thismod['data']) != len(nom):
+            raise InvalidModifier(
+                f"The '{sample}' sample modifier '{key}' in channel '{channel}' has 'data' of length {len(thismod['data'])} but the sample has {len(nom)} bins."
+            )
         moddata = self.collect(thismod, nom)
         self.builder_data[key][sample]['data']['mask'].append(moddata['mask'])
         self.builder_data[key][sample]['data']['uncrt'].append(moddata['uncrt'])
